@@ -273,6 +273,29 @@ let ref_port (c : case) : string * bool =
       else None) (List.init 11 (fun i -> i + 1)) in
   (Printf.sprintf "res=%s md=%s outs=%s" (String.concat "," rs) (String.concat ";" md) (String.concat ";" outs), !dom)
 
+(* kind=irq: a program with handlers; ops interleave irq:<v> (request), bnd (instruction boundary) and step.
+   Reference: FIFO of requests + boundary_ref + decode_ref/sem_ref. *)
+let ref_irq (c : case) : string * bool =
+  let s = ref c.s0 and q = ref [] and ok = ref true in
+  let classes = ref [] in
+  List.iter (fun o ->
+      if !ok then begin
+        (match o with
+         | OIrq v -> q := !q @ [ v ]
+         | OBnd -> (match boundary_ref !s !q with Some (s', q') -> s := s'; q := q' | None -> ok := false)
+         | OStep ->
+           (match ref_decode !s with
+            | Some (i, len) when exec_dom data_ok i len !s ->
+              (match sem_ref i len !s with Some s' -> s := s' | None -> ok := false)
+            | _ -> ok := false)
+         | _ -> ok := false);
+        classes := "ok" :: !classes
+      end) c.ops;
+  if not !ok then ("", false)
+  else
+    (Printf.sprintf "resclass=%s %s q=%s ccrmask=bf" (String.concat "," (List.rev !classes)) (fmt_state_tokens c !s)
+       (String.concat "," (List.map (fun v -> Printf.sprintf "%x" (int_of_z v)) !q)), true)
+
 (* kind=timer: histories of CPU writes to TCR/TCSR/TCORA/TCORB/TCNT of 8-bit timer channel 0, instruction
    charges (tick:n) and reads, against the tick-by-tick reference *)
 let ref_timer (c : case) : string * bool =
@@ -351,6 +374,9 @@ let () =
           | "step" ->
             let (r, d) = ref_step_case c in
             Printf.fprintf oc "R id=%s %s\nD id=%s %s\n" c.id r c.id d
+          | "irq" ->
+            let (r, d) = ref_irq c in
+            Printf.fprintf oc "R id=%s %s\nD id=%s C10=%d\n" c.id r c.id (if d then 1 else 0)
           | "timer" ->
             let (r, d) = ref_timer c in
             Printf.fprintf oc "R id=%s %s\nD id=%s C17=%d\n" c.id r c.id (if d then 1 else 0)
